@@ -17,7 +17,7 @@ RULE = ("quick: every one of the 9 coordinate x 216 adjacency-list configuration
         "tokenizers (every adjacency configuration and 360 seed-dependent path configurations, all 9 coordinate tokenizers, AOTP(post T/F)/AOP) "
         "x 6 mazes (untargeted/targeted/solved x tree/cyclic, grid 2..7), one 50x50 maze for the vocabulary edge and the 20x20 corridor of "
         "finding F4; thorough: the two sweeps on 12 mazes each (grid 2..9), 20000 sampled full tokenizers on grids 2..12 and 50x50/30x30 mazes. "
-        "non-trivial = the region/sequence contains at least one edge resp. one step; distinct = distinct (configuration, maze) pair")
+        "non-trivial = the region/sequence contains at least one edge resp. one step; distinct = distinct (configuration, maze) pair; later additions: maze.as_tokens(tokenizer) as well as tokenizer.to_tokens(maze), mazes without connections / full lattices / targeted mazes with start = end / integer-stored connection lists, one-cell and last-row solutions, churn of short-lived mazes, and every list returned by the element-level API edited in place by the caller before anything is tokenized")
 ASSUMPTIONS = [
     "mazes are square (maze.grid_n is used by AllLatticeEdges), grid 2..50, connection_list has no True entry in the last row of dim 0 / last column of dim 1",
     "consecutive solution cells are lattice neighbours (solutions are walks along connections; SolvedMaze itself does not validate this)",
